@@ -277,6 +277,38 @@ def run_one(ck, prog):
     elif ck.config != "C":
         ck.anchor("C15.3", "append_to_string", None)
 
+    # read_to_string is read_to_end on the caller's own reader plus the final validation: the closure handed to append_to_string calls
+    # default_read_to_end on the captured reader itself (an adapter in between that looks at the chunks - a per-chunk UTF-8 check, say -
+    # sees characters cut at chunk boundaries and changes what is delivered)
+    rts = prog.fns.get(IO + "default_read_to_string")
+    if rts is not None:
+        c9 = prog.ctx(rts)
+        ats = [bb for bb, t in c9.cfg.calls(lambda t: (t.get("callee") or "").endswith("io::append_to_string"))]
+        ok9 = False
+        why9 = "append_to_string call not found"
+        if len(ats) == 1:
+            a9 = c9.args(ats[0])
+            clo = next((z for z in walk_deep(a9[1], c9.prov, limit=40) if z[0] == "agg" and isinstance(z[2], str) and z[2] in prog.fns), None) if len(a9) > 1 else None
+            why9 = "the second argument is not a closure of this function"
+            if clo is not None:
+                caps = clo[3] or ()
+                cc9 = prog.ctx(prog.fns[clo[2]])
+                rte = [bb for bb, t in cc9.cfg.calls(lambda t: (t.get("callee") or "").endswith("io::default_read_to_end"))]
+                why9 = f"default_read_to_end calls in the closure: {len(rte)}"
+                if len(rte) == 1 and all(cc9.cfg.dominates(rte[0], rb) for rb in cc9.cfg.return_blocks()):
+                    r0 = cc9.args(rte[0])[0]
+                    capf = next((z for z in walk_deep(r0, cc9.prov, limit=30) if z[0] == "field" and isinstance(strip_casts(z[1]), tuple) and strip_casts(z[1])[0] in ("param", "deref")), None)
+                    k9 = int(capf[2]) if capf is not None and str(capf[2]).isdigit() else None
+                    src = caps[k9] if k9 is not None and k9 < len(caps) else None
+                    s9 = strip_casts(src) if src is not None else None
+                    while isinstance(s9, tuple) and s9 and s9[0] in ("ref", "addr", "deref"):
+                        s9 = strip_casts(s9[2] if s9[0] != "deref" else s9[1])
+                    ok9 = isinstance(s9, tuple) and s9[0] == "param" and s9[1] == 1
+                    why9 = f"the reader handed to default_read_to_end is {show(src) if src is not None else show(r0)}, not the caller's reader"
+        ck.ob("C15.3", "read_to_string-reads-the-callers-reader-itself", ok9, fn=rts["path"], detail=why9)
+    elif ck.config != "C":
+        ck.anchor("C15.3", "default_read_to_string", None)
+
     # ---- C15.4 progress by exactly n -----------------------------------------------------------------------------------------
     for fname, callsuf, label in ((IO + "Write::write_all", "io::Write::write", "write_all"), (IO + "default_read_exact", "io::Read::read", "read_exact")):
         fn = prog.fns.get(fname)
